@@ -154,6 +154,29 @@ def run_case(c):
                 if e2 > tol * gs and e2 > est:
                     bad("group_velocity", "group velocity (%s) differs from grad nu by %.3e (h) / %.3e (h/2), scale %.3e at q=%s" % (mode, e1, e2, gs, np.round(q, 4).tolist()),
                         mode=mode, **feat)
+        # the same through the band-structure route with band connection (modes re-ordered along the path): the velocity reported in slot b must be
+        # the gradient of the frequency reported in slot b - reference: the (frequency, velocity) pairs of the single-q route at the same q
+        path = np.array([qs[0] + t * (qs[1] - qs[0]) for t in np.linspace(0, 1, 9)])
+        ph.run_band_structure([path], with_group_velocities=True, is_band_connection=True)
+        bd = ph.get_band_structure_dict()
+        fb, gb = np.array(bd["frequencies"][0]), np.array(bd["group_velocities"][0])
+        for k in range(len(path)):
+            f0 = np.array(ph.get_frequencies(path[k]))
+            g0 = np.array(ph.get_group_velocity_at_q(path[k]))
+            fmax = max(np.abs(f0).max(), 1e-12)
+            for b in range(len(f0)):
+                gap = min(abs(f0[b] - f0[j]) for j in range(len(f0)) if j != b) if len(f0) > 1 else fmax
+                if gap < 1e-3 * fmax:
+                    continue
+                j = int(np.argmin(np.abs(fb[k] - f0[b])))
+                obs["n_gv_band_connection"] = obs.get("n_gv_band_connection", 0) + 1
+                if np.abs(gb[k][j] - g0[b]).max() > 1e-7 * max(np.abs(g0).max(), 1e-12):
+                    bad("group_velocity_band_connection", "band connection: the velocity reported with frequency %.6f at q=%s is %s, that mode's velocity is %s" % (
+                        f0[b], np.round(path[k], 4).tolist(), np.round(gb[k][j], 5).tolist(), np.round(g0[b], 5).tolist()), **feat)
+                    break
+            else:
+                continue
+            break
         obs["class_" + c["fcclass"]] = 1
         obs["nac_" + str(c["nac"])] = 1
         obs["lang_" + c["lang"]] = 1
